@@ -34,12 +34,46 @@ impl Prop for C12 {
     }
     fn budget(&self, tier: Tier) -> u64 {
         match tier {
-            Tier::Quick => 150_000,
+            Tier::Quick => 200_000,
             Tier::Thorough => 5_000_000,
         }
     }
     fn required_labels(&self) -> Vec<&'static str> {
         vec!["frames_checked", "frames_nontrivial"]
+    }
+    fn enumerate(&self, tier: Tier, shard: usize, nshards: usize, f: &mut dyn FnMut(Case)) {
+        use crate::refmodel::build_packet;
+        let addrs: Vec<u8> = if tier == Tier::Thorough { vec![0x00, 0x23, 0x40, 0x7F] } else { vec![0x23] };
+        for &a in &addrs {
+            let cfg = CtxCfg { addr: a, msg_types: vec![0x7E, 0x05], vendors: vec![(0, 0x1234, 0xAB), (1, 0x00C0FFEE, 9)] };
+            for s in 0..=255u8 {
+                if (s as usize) % nshards != shard {
+                    continue;
+                }
+                for iid in 0..32u8 {
+                    let reqs: [(u8, Vec<u8>); 9] = [
+                        (0x01, vec![0x00, 0x42]),
+                        (0x01, vec![0x03, 0x43]),
+                        (0x02, vec![]),
+                        (0x03, vec![]),
+                        (0x04, vec![0xFF]),
+                        (0x05, vec![]),
+                        (0x06, vec![0x01]),
+                        (0x06, vec![0x09]),
+                        (0x0B, vec![]),
+                    ];
+                    for (cmd, data) in reqs.iter() {
+                        let mut body = vec![0x80 | iid, *cmd];
+                        body.extend_from_slice(data);
+                        let bytes = build_packet(a, s, a, s, 0xC8, 0x00, &body);
+                        f(Case { cfg: cfg.clone(), ops: vec![Op::Process { bytes, cap: 64, fill: 0x77 }] });
+                    }
+                }
+            }
+        }
+    }
+    fn enumerated_desc(&self, tier: Tier) -> Option<String> {
+        Some(format!("every requester 0..255 x every instance id 0..31 x 9 requests (Set EID Set / SetDiscoveredFlag, Get EID, UUID, version, message types, vendor selector valid / out of range, an unsupported command) on {} responder address(es)", if tier == Tier::Thorough { 4 } else { 1 }))
     }
     fn run(&self, case: &Case) -> CaseResult {
         let mut r = CaseResult::default();
